@@ -206,6 +206,29 @@ m("C20-fmt-lookahead-unguarded", "breaking", ["C20"], "formatting.hpp",
   [["auto next = (i + 1) < self.fmt.size() ? self.fmt[i + 1] : 0;", "auto next = self.fmt[i + 1];"]],
   "fmt looks one character past the end of the format view")
 
+
+# ---- further benign changes (must stay quiet) ------------------------------------------------------------------------------
+m("slab-benign-shrink-keeps-tail-unpoisoned", "benign", ["C03", "C02"], "slab.hpp",
+  [["\t\t\t_plcy.unpoison_expand(p, item_size);\n\t\t\t_plcy.poison(p, item_size);\n\t\t\t_plcy.unpoison(p, new_size);\n\t\t}\n\t\treturn true;", "\t\t\t_plcy.unpoison_expand(p, item_size);\n\t\t}\n\t\treturn true;"]],
+  "an in-place realloc leaves the whole class block unpoisoned: the property only demands that the requested bytes are unpoisoned")
+m("C11-benign-stronger-cas", "benign", ["C11"], "qs.hpp",
+  [["\tvoid await_barrier(qs_node *node) {\n\t\t// Advance the desired QS counter.\n\t\tauto target = _dom->_qs_counter.load(std::memory_order_relaxed) + 2;\n\t\tauto c = _dom->_desired_qs_counter.load(std::memory_order_relaxed);\n\t\twhile(c < target) {\n\t\t\tif(_dom->_desired_qs_counter.compare_exchange_weak(c, target,\n\t\t\t\t\tstd::memory_order_relaxed, std::memory_order_relaxed))",
+    "\tvoid await_barrier(qs_node *node) {\n\t\t// Advance the desired QS counter.\n\t\tauto target = _dom->_qs_counter.load(std::memory_order_relaxed) + 2;\n\t\tauto c = _dom->_desired_qs_counter.load(std::memory_order_relaxed);\n\t\twhile(c < target) {\n\t\t\tif(_dom->_desired_qs_counter.compare_exchange_weak(c, target,\n\t\t\t\t\tstd::memory_order_acq_rel, std::memory_order_acquire))"]],
+  "the CAS that raises the desired period uses stronger orders")
+m("C14-benign-growth-factor", "benign", ["C14", "C16"], "hash_map.hpp",
+  [["size_t new_capacity = 2 * _size;", "size_t new_capacity = 4 * _size;"]],
+  "the table grows by another factor")
+m("C15-benign-spare-capacity", "benign", ["C15", "C16"], "string.hpp",
+  [["\tbasic_string(const basic_string &other)\n\t: _allocator{other._allocator}, _length{other._length} {\n\t\t_buffer = (Char *)_allocator.allocate(sizeof(Char) * _length + 1);",
+    "\tbasic_string(const basic_string &other)\n\t: _allocator{other._allocator}, _length{other._length} {\n\t\t_buffer = (Char *)_allocator.allocate(sizeof(Char) * _length + 9);"]],
+  "the copy constructor allocates some spare room")
+m("C12-benign-inner-spin-acquire", "benign", ["C12"], "spinlock.hpp",
+  [["while (__atomic_load_n(&lock_, __ATOMIC_RELAXED)) {", "while (__atomic_load_n(&lock_, __ATOMIC_ACQUIRE)) {"]],
+  "the read-only spin of simple_spinlock uses acquire")
+m("C13-benign-small-vector-growth", "benign", ["C13", "C16"], "small_vector.hpp",
+  [["size_t new_capacity = capacity * 2;", "size_t new_capacity = capacity + 5;"]],
+  "small_vector grows additively")
+
 with open(os.path.join(os.path.dirname(os.path.abspath(__file__)), "mutants.jsonl"), "w") as f:
     for x in M:
         f.write(json.dumps(x) + "\n")
